@@ -7,6 +7,7 @@ package raft
 import (
 	"io"
 	"os"
+	"runtime"
 	"time"
 )
 
@@ -59,10 +60,11 @@ type vSFile struct {
 }
 
 var (
-	vSFiles   []*vSFile // creation order
-	vOSFiles  = map[*os.File]*vSFile{}
-	vOSPos    = map[*os.File]int{}
-	vSnapSeq  int
+	vSFiles  []*vSFile // creation order
+	vOSFiles = map[*os.File]*vSFile{}
+	vOSPos   = map[*os.File]int{}
+	vOSNames = map[*os.File]string{}
+	vSnapSeq int
 )
 
 func vSLookup(name string) *vSFile {
@@ -135,12 +137,23 @@ func vOSCreate(name string) (*os.File, error) {
 	vCrashPoint("snap.create.before")
 	g := vSCreate(name)
 	h := &os.File{}
-	vOSFiles[h] = g
+	vOSFiles[h], vOSNames[h] = g, name
 	vCrashPoint("snap.create.after")
 	return h, nil
 }
 
+// vSnapYield: when set (cooperative harnesses), every file-system call of the snapshot store is a scheduling point,
+// so two goroutines working in the store interleave call by call.
+var vSnapYield bool
+
+func vSYield() {
+	if vSnapYield {
+		runtime.Gosched()
+	}
+}
+
 func vOSOpenFile(name string, flag int, perm os.FileMode) (*os.File, error) {
+	vSYield()
 	if flag&os.O_CREATE != 0 {
 		return vOSCreate(name)
 	}
@@ -153,7 +166,7 @@ func vOSOpen(name string) (*os.File, error) {
 		return nil, vIOError{"no such file"}
 	}
 	h := &os.File{}
-	vOSFiles[h] = g
+	vOSFiles[h], vOSNames[h] = g, name
 	return h, nil
 }
 
@@ -167,6 +180,7 @@ func (i vFileInfo) IsDir() bool        { return false }
 func (i vFileInfo) Sys() interface{}   { return nil }
 
 func vOSStat(name string) (os.FileInfo, error) {
+	vSYield()
 	g := vSLookup(name)
 	if g == nil {
 		return nil, vIOError{"no such file"}
@@ -205,20 +219,17 @@ func vSRename(oldpath, newpath string) error {
 
 // vRenameAny serves both value files and snapshot files.
 func vRenameAny(oldpath, newpath string) error {
+	vSYield()
 	if _, ok := vNameExt[oldpath]; ok {
 		return vRename(oldpath, newpath)
 	}
 	return vSRename(oldpath, newpath)
 }
 
-func vFileClose(f *os.File) error { return nil }
-func vFileName(f *os.File) string {
-	if g := vOSFiles[f]; g != nil {
-		return g.name
-	}
-	return ""
-}
+func vFileClose(f *os.File) error { vSYield(); return nil }
+func vFileName(f *os.File) string { return vOSNames[f] } // the path it was opened with, whatever happened to the file since
 func vFileWrite(f *os.File, b []byte) (int, error) {
+	vSYield()
 	g := vOSFiles[f]
 	g.content = append(g.content, b...)
 	return len(b), nil
